@@ -1,5 +1,5 @@
 SPECIFICATION BSpec
-CONSTANTS MaxN = 17
+CONSTANTS MaxN = 12
  Firsts <- FirstsT
  Lasts <- LastsT
  Steps = {1, 2, 3, 5}
